@@ -381,6 +381,16 @@ pub mod output {
             out: u64,
             value: Option<String>,
             ptr: usize,
+            /// The auto-escape mode in effect.
+            auto_escape: crate::utils::AutoEscape,
+            /// The representation of the value (`"String"`, `"SafeString"`,
+            /// `"SmallStr"`, `"U64"`, `"Object"`, ...).
+            repr: &'static str,
+            /// What `Display` prints for the value; `None` for objects (printing
+            /// those may have side effects).
+            text: Option<String>,
+            /// Is the default formatter installed?
+            default_formatter: bool,
         },
         /// A nested evaluation (`"include"` or `"super"`) starts writing to `out`.
         Enter { out: u64, kind: &'static str },
@@ -466,11 +476,39 @@ pub mod output {
         });
     }
 
-    pub(crate) fn on_emit(out: u64, value: &Value) {
+    pub(crate) fn on_emit(
+        out: u64,
+        value: &Value,
+        auto_escape: crate::utils::AutoEscape,
+        default_formatter: bool,
+    ) {
+        use crate::value::StringType;
         log(|| Event::Emit {
             out,
             value: value.as_str().map(|s| s.to_string()),
             ptr: str_ptr(value),
+            auto_escape,
+            repr: match value.0 {
+                ValueRepr::Undefined(_) => "Undefined",
+                ValueRepr::Bool(_) => "Bool",
+                ValueRepr::U64(_) => "U64",
+                ValueRepr::I64(_) => "I64",
+                ValueRepr::F64(_) => "F64",
+                ValueRepr::None => "None",
+                ValueRepr::Invalid(_) => "Invalid",
+                ValueRepr::U128(_) => "U128",
+                ValueRepr::I128(_) => "I128",
+                ValueRepr::String(_, StringType::Normal) => "String",
+                ValueRepr::String(_, StringType::Safe) => "SafeString",
+                ValueRepr::SmallStr(_) => "SmallStr",
+                ValueRepr::Bytes(_) => "Bytes",
+                ValueRepr::Object(_) => "Object",
+            },
+            text: match value.0 {
+                ValueRepr::Object(_) => None,
+                _ => Some(value.to_string()),
+            },
+            default_formatter,
         });
     }
 
